@@ -329,4 +329,20 @@ CLAIMS = {
                 "load does not raise alarms; a straggler that outlives the 3 s the harness waits between scenarios may leak into "
                 "the next scenario's reference comparison (it would show as a violation, never mask one).",
     },
+    "C25": {
+        "category": "other",
+        "text": "Bounded stand-in (not a proof): the real TypeSystem built by generate_test_cluster from generated modules - 8 "
+                "(thorough: all 64) inheritance DAGs on 4 classes incl. chain, diamond and unrelated classes, numeric tower on - is "
+                "checked over ~80 proper types (the classes, int/float/bool/complex/str, None, Any, list/set/dict/tuple of them, "
+                "binary unions, unions nested in tuples and lists, unions of tuples): reflexivity, 'everything is a subtype of "
+                "Any', the union rule, is_subtype implies is_maybe_subtype, the two distance laws on all ordered pairs, "
+                "transitivity on all triples, and is_subclass against Python's issubclass plus the tower.",
+        "technique": "bounded contract check, exhaustive over pairs/triples of a fixed family of small types (the visitors recurse "
+                     "over a type ADT with lru_cache and networkx path queries; the per-visitor induction planned in DESIGN.md is "
+                     "not built)",
+        "note": "no unbounded claim. Known findings (recorded, each with its witness class): transitivity fails through types "
+                "containing Any (Any is top and bottom by design); subtype_distance is defined for generics with covariantly "
+                "related arguments although the subtype checks are invariant; subtype_distance(T, T) is not 0 for Any, for types "
+                "containing Any and for unions without an Instance member.",
+    },
 }
